@@ -215,17 +215,22 @@ pub fn run_batch(prop: &str, seed: u64, from: u64, to: u64, workers: u64, hashes
         let h = std::thread::spawn(move || {
             let errh = std::thread::spawn(move || {
                 let mut s = String::new();
+                let mut last_marker = String::new();
                 let mut r = BufReader::new(stderr);
                 let mut line = String::new();
                 while let Ok(n) = r.read_line(&mut line) {
                     if n == 0 {
                         break;
                     }
-                    if s.len() < 4000 {
+                    if line.starts_with("C ") {
+                        // lane C: "C <run> <step> <entry>" names the table call in flight
+                        last_marker = line.clone();
+                    } else if s.len() < 4000 {
                         s.push_str(&line);
                     }
                     line.clear();
                 }
+                s.push_str(&last_marker);
                 s
             });
             let mut agg = Agg::default();
@@ -548,6 +553,20 @@ pub fn cmd_check(prop: &str, tier: &str, seed: u64) -> i32 {
     }
     let mut all_v: Vec<Value> = agg.violations.clone();
     all_v.extend(death_violations);
+    if prop == "C15" {
+        // header conformance by use: probes compiled at build time against the shipped header
+        for v in crate::lane_c::header_violations() {
+            let sig = v.signature();
+            if let Some(i) = kf.matches(prop, "C", &sig) {
+                let f = &kf.findings[i];
+                println!("KNOWN-FINDING: property={} {} [signature {}]", prop, f.what, f.signature);
+            } else {
+                all_v.push(json!({"run": 0, "seed": seed, "lane": "C",
+                    "violation": lanes::violation_json(&v),
+                    "scenario": {"header_probe": v.op}}));
+            }
+        }
+    }
     if !all_v.is_empty() {
         all_v.sort_by_key(|v| v["run"].as_u64().unwrap_or(u64::MAX));
         // prefer the shortest scenario among the first few
